@@ -262,7 +262,10 @@ impl<T: RealNumber + ScalarOperand + AddAssign + SubAssign + MulAssign + DivAssi
     }
 
     fn dot(&self, other: &Self) -> T {
-        self.dot(&other.view().reversed_axes())[[0, 0]]
+        if (self.nrows() != 1 && self.ncols() != 1) || self.shape() != other.shape() {
+            panic!("A and B should both be row vectors or both be column vectors of the same size.");
+        }
+        self.iter().zip(other.iter()).map(|(a, b)| *a * *b).sum()
     }
 
     fn slice(&self, rows: Range<usize>, cols: Range<usize>) -> Self {
